@@ -168,6 +168,10 @@ def judge(ctx, ws, ri, p, D, desc, base_positive):
     elif base_positive:
         ctx.sample("near-miss:" + desc.split(" ")[0], case)
     if r[0] != "ok":
+        if "constant_multiplier" in D and "register_multiplier" not in D:
+            # a scale without an index register names no AT&T operand: rejecting it loudly is as faithful as never matching
+            ctx.event("scale_without_index_rejected")
+            return
         ctx.disagreement(case, f"real raised {r[1]}: {r[2]} for a well-formed $deref")
         return
     if bool(r[1]) != want:
